@@ -145,6 +145,21 @@ class MethodInfo:
         self.pv_mode = False        # a method of PriorityValue: `self` is a PV value
 
 
+RESERVED = {"s", "H", "gp", "draw", "rand", "self", "at", "end", "fun", "open", "from", "have", "show", "then",
+            "match", "with", "do", "in", "let", "by", "instance", "structure", "class", "where", "macro", "syntax",
+            "namespace", "section", "variable", "universe", "theorem", "def", "example", "import", "export",
+            "extends", "deriving", "mutual", "private", "protected", "local", "attribute", "notation", "prefix",
+            "postfix", "infix", "using", "calc", "obtain", "suffices", "exists", "forall", "Type", "Prop", "Sort",
+            "if", "else", "return", "for", "unless", "try", "catch", "finally", "mut", "nomatch", "sorry"}
+
+
+def binder(py):
+    """a Python name used as a Lean binder"""
+    if py == "__yield__":
+        return "yielded"
+    return py + "_v" if (py in RESERVED or py.endswith("_") or not py.isidentifier() or not py.isascii()) else py
+
+
 def lean_name(py):
     if py.startswith("__") and py.endswith("__"):
         return py[2:-2] + "_"
@@ -548,9 +563,18 @@ class MethodTr:
                 return self.sibling_call(e, m, env, kk, k)
             if isinstance(e.func, ast.Name) and e.func.id == PV_CLASS:
                 args = self.bind_args(e, self.c.pv_params, self.c.pv_defaults, "PriorityValue")
+                self.check_order(e, args)
                 return self.eval_many(args, env, kk,
                                       lambda vals, env2: k(self.mk_pv(vals, env2), "pv", env2))
         raise Unsupported(f"a call with side effects inside {type(e).__name__}: {ast.dump(e)[:80]}")
+
+    def check_order(self, call, bound):
+        """Python evaluates arguments in source order; `bound` is in parameter order"""
+        src = list(call.args) + [kw.value for kw in call.keywords]
+        if any(self.effectful(a) for a in src):
+            explicit = [b for b in bound if any(b is x for x in src)]
+            if [id(x) for x in explicit] != [id(x) for x in src]:
+                raise Unsupported("keyword arguments with side effects given in another order than the parameters")
 
     def eval_many(self, exprs, env, kk, k, acc=None):
         acc = acc or []
@@ -577,6 +601,7 @@ class MethodTr:
             raise Unsupported(f"self._pq.{m}(…) is not in the PriorityQueue binding table")
         params, defaults, structural = PQ_API[m]
         args = self.bind_args(e, params, defaults, f"PriorityQueue.{m}")
+        self.check_order(e, args)
 
         def go(vals, env):
             env = env.copy()
@@ -638,6 +663,7 @@ class MethodTr:
         params = [p[0] for p in callee.params]
         defaults = {p[0]: p[2] for p in callee.params}
         args = self.bind_args(e, params, defaults, f"self.{m}")
+        self.check_order(e, args)
 
         def go(vals, env):
             env = env.copy()
@@ -1109,7 +1135,7 @@ class MethodTr:
 
     @staticmethod
     def pyname(n):
-        return "yielded" if n == "__yield__" else n
+        return binder(n)
 
     def assign_loop_target(self, tgt, text, ty, env):
         if isinstance(tgt, ast.Name):
@@ -1182,8 +1208,8 @@ class MethodTr:
         env = Env()
         binders = ""
         for pn, pt, _ in m.params:
-            env.vars[pn] = Var(pn, pt, pt, 0 if has_ref(pt) else None, 0 if pt == "pv" else None)
-            binders += f" ({pn} : {lean_ty(pt)})"
+            env.vars[pn] = Var(binder(pn), pt, pt, 0 if has_ref(pt) else None, 0 if pt == "pv" else None)
+            binders += f" ({binder(pn)} : {lean_ty(pt)})"
         if m.rand_direct:
             binders += " (rand : Rat)"
         if m.generator:
@@ -1375,8 +1401,8 @@ class ClassTr:
                 env.vars[fn.args.args[0].arg] = Var("self", "pv")
                 binders = ""
                 for a, pt in zip(fn.args.args[1:], ptys):
-                    env.vars[a.arg] = Var(a.arg, pt)
-                    binders += f" ({a.arg} : {lean_ty(pt)})"
+                    env.vars[a.arg] = Var(binder(a.arg), pt)
+                    binders += f" ({binder(a.arg)} : {lean_ty(pt)})"
 
                 def fall(env2):
                     raise Unsupported("control can fall off the end")
@@ -1462,6 +1488,14 @@ def generate(src: Path) -> dict:
     if notes:
         notes = ["-- The methods below are NOT translated; every theorem of Lemmas/GenEqPosPQ.lean about",
                  "-- them is a broken obligation (the file does not build)."] + notes + [""]
+    try:
+        names = sorted([n.name for n in ct.cls.body if isinstance(n, ast.FunctionDef)]
+                       + [f"{PV_CLASS}.{n.name}" for n in ct.pv_cls.body if isinstance(n, ast.FunctionDef)])
+        listing = ", ".join('("%s", %s)' % (n, "false" if n in failed else "true") for n in names)
+        parts.append("/-- every method of the two classes, and whether it is translated above -/\n"
+                     f"def methods : List (String × Bool) :=\n  [{listing}]")
+    except NameError:
+        pass
     text = "\n".join(head + notes) + "\n\n".join(parts) + "\n\nend Asynkit.Gen.PosPQ\n"
     return {"PosPQ.lean": text}
 
